@@ -117,7 +117,7 @@ class C07(Check):
 RM_ADDS = [['a', 1], ['a', -1], ['a', -2], ['b', 1], ['b', -1], ['n', 1], ['n', -3], ['a', 0]]
 RM_REQUESTS = [{'a': 1}, {'a': 2}, {'a': 1, 'b': 1}, {'b': 1, 'a': 2}, {'a': 0}, {}, {'a': 1, 'b': -1}, {'b': -1, 'a': 1},
                {'a': -1}, {'zz': 1}, {'a': 1, 'zz': 0}, {'a': 1, 'zz': 1}, {'zz': 0, 'b': 1}]
-RM_RELEASES = [None, {'a': 1}, {'a': 5}, {'zz': 1}, {'a': 1, 'zz': 0}, {'a': -1}, {'a': 0}, {'b': 1}, {'a': 1, 'b': 5}, {}]
+RM_RELEASES = [None, {'a': 1}, {'a': 2}, {'a': 5}, {'zz': 1}, {'a': 1, 'zz': 0}, {'a': -1}, {'a': 0}, {'b': 1}, {'a': 1, 'b': 5}, {}]
 
 
 @check
@@ -178,7 +178,7 @@ class C10(Check):
 
 
 MAINT_TARGETS = [{'table': {'x': [1, [1], 3], 'y': [0, [0], 0]}, 'nested': {'end:x': [1, 'y']}},
-                 {'table': {'x': [2, [1.5, 1], 0], 'y': [1, [1], 0], 'big': [5, [1], 0]}},
+                 {'table': {'x': [2, [1.5, 1], 0], 'y': [[1, 2], [1], 0], 'big': [5, [1], 0]}},
                  {'table': {'x': [1, [0], 3], 'y': [1, [0.5], 0]}, 'nested': {'start:x': [0, 'y'], 'end:y': [2, 'y']}}]
 MAINT_REQUESTS = [[0, 'x'], [0, 'y'], [1, 'x'], [1, 'y'], [1, 'big'], [2, 'x'], [2, 'y']]
 # tags are handed to the maintainer as freshly built tuples: equal, but never the same object twice
@@ -192,7 +192,7 @@ class C12(Check):
                               '(selection); START_WORK events of orders selected in one scan are tied at one instant and may execute '
                               'in either order (DESIGN.md section 5, C12).')
     rule = ('for maintainer capacity 0, 1, 2 and unlimited: every interleaving of <=D create_work_order calls (D=4 quick, 5 thorough) '
-            'over 3 targets x tags (needed capacity 0,1,2,5>total; durations 0, 0.5, 1, 1.5 -- one cycling per query; cost 0/3; '
+            'over 3 targets x tags (needed capacity 0,1,2,5>total and one cycling 1,2 per query; durations 0, 0.5, 1, 1.5 -- one cycling per query; cost 0/3; '
             'one target requesting further orders from inside its start and end hooks, including itself) with every real event '
             'and every tie-break order among simultaneous starts/finishes; non-trivial = partition with overlapping orders, a '
             'duplicate rejected and an order left queued while the clock advanced')
